@@ -201,6 +201,8 @@ pub struct Env {
     pub expansion_budget: u64,
     /// Tokens delivered in the current line (budget, for loops that do not expand macros).
     pub token_budget: usize,
+    /// Command references of the font selector built-ins, for `\the<font>` (set at boot/restore).
+    pub font_refs: Vec<(u16, token::CommandRef)>,
 }
 
 impl Default for Env {
@@ -215,6 +217,7 @@ impl Default for Env {
             expansions: Cell::new(0),
             expansion_budget: 20_000,
             token_budget: 200_000,
+            font_refs: Vec::new(),
         }
     }
 }
@@ -299,7 +302,15 @@ impl TexlangState for SimState {
     }
 }
 
-impl the::TheCompatible for SimState {}
+impl the::TheCompatible for SimState {
+    fn get_command_ref_for_font(&self, font: types::Font) -> Option<token::CommandRef> {
+        self.env
+            .font_refs
+            .iter()
+            .find(|(f, _)| *f == font.0)
+            .map(|(_, r)| *r)
+    }
+}
 
 implement_has_component![SimState{
     alloc: alloc::Component,
